@@ -64,7 +64,7 @@ def rule_consume(chk):
     mods = {}
     for rel, name in ALL_FUNCS:
         mod = mods.setdefault(rel, pf.Module(chk.tree, rel))
-        fn = mod.func(name)
+        fn = ks.locate(chk.tree, rel, name)[1]
         kind = "int" if rel == NUMINT else "grad"
         sites = ks.unpack_of_eval_xc(fn)
         if not sites:
@@ -216,24 +216,53 @@ def _root_name(e):
     return e.id if isinstance(e, ast.Name) else None
 
 
-def _ladder(stmts, flagdefs):
-    """top-level `if has_X:` statements -> list of dicts"""
+def _rung_family(test, flagdefs):
+    if isinstance(test, ast.Name) and test.id in flagdefs:
+        return flagdefs[test.id]
+    ft = ks.family_test(test)
+    return ft[0] if ft and ft[1] else None
+
+
+def _ladder(stmts, flagdefs, ctr):
+    """top-level `if <family present>:` statements -> list of dicts (names of the counter / width variables are
+    taken from the code, not assumed)"""
+    import re
     out = []
     for st in stmts:
-        if isinstance(st, ast.If) and isinstance(st.test, ast.Name) and st.test.id in flagdefs:
-            nf = [n for n in st.body if isinstance(n, ast.Assign) and pf.src(n.targets[0]) == "nfeat_tmp"]
-            inc = [n for n in st.body if isinstance(n, ast.AugAssign) and pf.src(n.target) == "start"
-                   and isinstance(n.op, ast.Add)]
-            slices = sorted({_slice_shape(n.slice) for b in st.body for n in ast.walk(b) if isinstance(n, ast.Subscript)
-                             and "start" in ks._names(n.slice)})
-            out.append({"flag": st.test.id, "family": flagdefs[st.test.id], "nfeat": pf.src(nf[0].value) if nf else None,
-                        "inc": [pf.src(n.value) for n in inc], "slices": slices, "node": st})
+        if not isinstance(st, ast.If):
+            continue
+        fam = _rung_family(st.test, flagdefs)
+        if fam is None:
+            continue
+        inc = [n for n in st.body if isinstance(n, ast.AugAssign) and pf.src(n.target) == ctr and isinstance(n.op, ast.Add)]
+        inc += [n for n in st.body if isinstance(n, ast.Assign) and pf.src(n.targets[0]) == ctr
+                and isinstance(n.value, ast.BinOp) and isinstance(n.value.op, ast.Add) and pf.src(n.value.left) == ctr]
+        width_name, width = None, None
+        if inc:
+            w = inc[0].value if isinstance(inc[0], ast.AugAssign) else inc[0].value.right
+            width = pf.src(w)
+            if isinstance(w, ast.Name):
+                width_name = w.id
+                d = [n for n in st.body if isinstance(n, ast.Assign) and pf.src(n.targets[0]) == w.id]
+                width = pf.src(d[0].value) if len(d) == 1 else None
+        slices = set()
+        for b in st.body:
+            for n in ast.walk(b):
+                if isinstance(n, ast.Subscript) and ctr in ks._names(n.slice):
+                    t = _slice_shape(n.slice)
+                    t = re.sub(r"\b%s\b" % re.escape(ctr), "START", t)
+                    if width_name:
+                        t = re.sub(r"\b%s\b" % re.escape(width_name), "WIDTH", t)
+                    elif width:
+                        t = t.replace(width, "WIDTH")
+                    slices.add(t)
+        out.append({"flag": pf.src(st.test), "family": fam, "nfeat": width, "n_inc": len(inc),
+                    "slices": sorted(slices), "node": st})
     return out
 
 
 def rule_ladder(chk):
-    mod = pf.Module(chk.tree, NUMINT)
-    fn = mod.func("CiderNumIntMixin.eval_xc_cider")
+    fn = ks.locate(chk.tree, NUMINT, "CiderNumIntMixin.eval_xc_cider")[1]
     fq = "CiderNumIntMixin.eval_xc_cider"
     flagdefs = {}
     for st in fn.body:
@@ -241,27 +270,42 @@ def rule_ladder(chk):
             ft = ks.family_test(st.value)
             if ft and ft[1]:
                 flagdefs[st.targets[0].id] = ft[0]
-    if len(flagdefs) < 4:
-        raise core.AnalysisError("%s: the four has_<family> flags were not found (%s)" % (fq, sorted(flagdefs)))
-    starts = [i for i, st in enumerate(fn.body) if isinstance(st, ast.Assign) and pf.src(st) == "start = 0"]
-    guards = [i for i, st in enumerate(fn.body) if isinstance(st, ast.If) and pf.src(st.test) in (
-        "start != nfeat", "nfeat != start") and cfgm._raises(st.body)]
-    if len(starts) != 2:
-        raise core.AnalysisError("%s: expected two `start = 0` sections, found %d" % (fq, len(starts)))
+    # the running offset: a name set to 0 twice at the top level and advanced inside the rungs
+    zeros = {}
+    for i, st in enumerate(fn.body):
+        if isinstance(st, ast.Assign) and len(st.targets) == 1 and isinstance(st.targets[0], ast.Name) \
+                and isinstance(st.value, ast.Constant) and st.value.value == 0 and st.value.value is not False:
+            zeros.setdefault(st.targets[0].id, []).append(i)
+    cands = [k for k, v in zeros.items() if len(v) == 2 and any(
+        isinstance(n, (ast.AugAssign, ast.Assign)) and pf.src(n.target if isinstance(n, ast.AugAssign) else n.targets[0]) == k
+        for st in fn.body if isinstance(st, ast.If) for n in st.body)]
+    if len(cands) != 1:
+        raise core.AnalysisError("%s: the running feature offset (set to 0 before each ladder) was not found: %s" % (
+            fq, sorted(zeros)))
+    ctr = cands[0]
+    starts = zeros[ctr]
+
+    def is_close(st):
+        if isinstance(st, ast.If) and isinstance(st.test, ast.Compare) and len(st.test.ops) == 1 \
+                and isinstance(st.test.ops[0], ast.NotEq) and ctr in ks._names(st.test) and cfgm._raises(st.body):
+            return True
+        return isinstance(st, ast.Assert) and isinstance(st.test, ast.Compare) and len(st.test.ops) == 1 \
+            and isinstance(st.test.ops[0], ast.Eq) and ctr in ks._names(st.test)
+    guards = [i for i, st in enumerate(fn.body) if is_close(st)]
     sections = []
-    for k, s in enumerate(starts):
+    for k, s_ in enumerate(starts):
         end = starts[k + 1] if k + 1 < len(starts) else len(fn.body)
-        g = [i for i in guards if s < i < end]
-        inst = "%s:%s %s ladder closed by the nfeat guard" % (NUMINT, fq, "forward" if k == 0 else "backward")
+        g = [i for i in guards if s_ < i < end]
+        nm = "forward" if k == 0 else "backward"
+        inst = "%s:%s %s ladder closed by the nfeat guard" % (NUMINT, fq, nm)
         if not g:
-            chk.violation("ladder-mirror", NUMINT, fq, "%s ladder: start != nfeat guard" % ("forward" if k == 0 else "backward"),
-                          fn.body[s].lineno, "the %s ladder is not closed by `if start != nfeat: raise`: a family "
-                          "missing from one ladder would go unnoticed at run time" % ("forward" if k == 0 else "backward"),
-                          instance=inst)
-            sections.append(_ladder(fn.body[s:end], flagdefs))
+            chk.violation("ladder-mirror", NUMINT, fq, "%s ladder: start != nfeat guard" % nm,
+                          fn.body[s_].lineno, "the %s ladder is not closed by `if %s != nfeat: raise`: a family "
+                          "missing from one ladder would go unnoticed at run time" % (nm, ctr), instance=inst)
+            sections.append(_ladder(fn.body[s_:end], flagdefs, ctr))
         else:
             chk.ok("ladder-mirror", inst)
-            sections.append(_ladder(fn.body[s:g[0]], flagdefs))
+            sections.append(_ladder(fn.body[s_:g[0]], flagdefs, ctr))
     fwd, bwd = sections
     if len(fwd) < 4:
         raise core.AnalysisError("%s: forward ladder has %d rungs (<4)" % (fq, len(fwd)))
@@ -269,47 +313,48 @@ def rule_ladder(chk):
     inst = "%s:%s families forward %s == backward %s" % (NUMINT, fq, ff, bf_)
     if ff != bf_:
         chk.violation("ladder-mirror", NUMINT, fq, "family order forward/backward", fn.body[starts[1]].lineno,
-                      "forward ladder fills X0T in the order %s but the backward ladder slices vxc_ml in the order "
-                      "%s: the derivative of one family is back-propagated through another family's plan" % (ff, bf_),
-                      instance=inst)
+                      "forward ladder fills the feature array in the order %s but the backward ladder slices the "
+                      "derivative array in the order %s: the derivative of one family is back-propagated through "
+                      "another family's plan" % (ff, bf_), instance=inst)
     else:
         chk.ok("ladder-mirror", inst)
     for sec, nm in ((fwd, "forward"), (bwd, "backward")):
         for r in sec:
-            inst = "%s:%s %s rung %s" % (NUMINT, fq, nm, r["flag"])
+            inst = "%s:%s %s rung %s" % (NUMINT, fq, nm, r["family"])
             want = "self.settings.%s.nfeat" % ks.FAMILIES[r["family"]][1]
             problems = []
             if r["nfeat"] != want:
                 problems.append("uses the width `%s`, expected `%s`" % (r["nfeat"], want))
-            if r["inc"] != ["nfeat_tmp"]:
-                problems.append("does not advance `start += nfeat_tmp` exactly once (found %s)" % r["inc"])
-            if r["slices"] != ["[:, start:start + nfeat_tmp]"]:
-                problems.append("slices %s instead of [:, start:start + nfeat_tmp]" % r["slices"])
+            if r["n_inc"] != 1:
+                problems.append("does not advance the offset by its width exactly once (found %d)" % r["n_inc"])
+            if r["slices"] != ["[:, START:START + WIDTH]"]:
+                problems.append("slices %s instead of [:, offset:offset + width]" % r["slices"])
             if problems:
-                chk.violation("ladder-mirror", NUMINT, fq, "%s rung %s" % (nm, r["flag"]), r["node"].lineno,
+                chk.violation("ladder-mirror", NUMINT, fq, "%s rung %s" % (nm, r["family"]), r["node"].lineno,
                               "; ".join(problems), instance=inst)
             else:
                 chk.ok("ladder-mirror", inst)
-    # each family's producer/consumer: X0T rows written forward, vxc_ml rows read backward
-    for r in fwd:
-        inst = "%s:%s forward rung %s stores into X0T" % (NUMINT, fq, r["flag"])
-        st = [n for n in r["node"].body if isinstance(n, ast.Assign) and pf.base_name(n.targets[0]) == "X0T"]
-        if len(st) == 1:
-            chk.ok("ladder-mirror", inst, nontrivial=False)
-        else:
-            chk.violation("ladder-mirror", NUMINT, fq, "forward rung %s" % r["flag"], r["node"].lineno,
-                          "the rung does not store its features into X0T exactly once", instance=inst)
-    for r in bwd:
-        inst = "%s:%s backward rung %s reads vxc_ml" % (NUMINT, fq, r["flag"])
-        rd = [n for b in r["node"].body for n in ast.walk(b) if isinstance(n, ast.Subscript)
-              and pf.base_name(n) == "vxc_ml"]
-        if len(rd) == 1:
-            chk.ok("ladder-mirror", inst, nontrivial=False)
-        else:
-            chk.violation("ladder-mirror", NUMINT, fq, "backward rung %s" % r["flag"], r["node"].lineno,
-                          "the rung does not read its slice of vxc_ml exactly once", instance=inst)
+    # each family's producer/consumer: feature rows written forward, derivative rows read backward (exactly once)
+    for sec, nm, store in ((fwd, "forward", True), (bwd, "backward", False)):
+        for r in sec:
+            inst = "%s:%s %s rung %s %s its slice once" % (NUMINT, fq, nm, r["family"], "stores" if store else "reads")
+            subs = [n for b in r["node"].body for n in ast.walk(b) if isinstance(n, ast.Subscript)
+                    and ctr in ks._names(n.slice)]
+            if store:
+                subs = [n for n in subs if isinstance(n.ctx, ast.Store)]
+            if len(subs) == 1:
+                chk.ok("ladder-mirror", inst, nontrivial=False)
+            else:
+                chk.violation("ladder-mirror", NUMINT, fq, "%s rung %s" % (nm, r["family"]), r["node"].lineno,
+                              "the rung %s its [:, offset:offset + width] slice %d times (expected once)" % (
+                                  "stores" if store else "reads", len(subs)), instance=inst)
     # the NLDF / SDMX potentials that are handed out are None exactly when the family is absent
-    for fam, var in (("nldf", "vxc_nldf"), ("sdmx", "vxc_sdmx")):
+    rets = [n for n in pf.walk_no_nested(fn) if isinstance(n, ast.Return) and isinstance(n.value, ast.Tuple)
+            and len(n.value.elts) >= 2 and isinstance(n.value.elts[1], ast.Tuple) and len(n.value.elts[1].elts) == 3]
+    if not rets:
+        raise core.AnalysisError("%s: `return exc, (vxc, vxc_nldf, vxc_sdmx), ...` not found" % fq)
+    names = [pf.src(x) for x in rets[0].value.elts[1].elts]
+    for fam, var in (("nldf", names[1]), ("sdmx", names[2])):
         r = [x for x in bwd if x["family"] == fam]
         inst = "%s:%s %s handed out / None by family flag" % (NUMINT, fq, var)
         good = False
@@ -318,19 +363,23 @@ def rule_ladder(chk):
             a = [n for n in nd.body if isinstance(n, ast.Assign) and pf.src(n.targets[0]) == var]
             b = [n for n in nd.orelse if isinstance(n, ast.Assign) and pf.src(n.targets[0]) == var
                  and pf.src(n.value) == "None"]
-            good = len(a) == 1 and len(b) == 1 and pf.base_name(a[0].value) == "vxc_ml"
+            # or initialised to None before the ladder
+            pre = [n for n in fn.body[starts[1]:] if isinstance(n, ast.Assign) and pf.src(n.targets[0]) == var
+                   and pf.src(n.value) == "None"]
+            good = len(a) == 1 and (len(b) == 1 or len(pre) == 1) and isinstance(a[0].value, ast.Subscript) \
+                and ctr in ks._names(a[0].value.slice)
         if good:
             chk.ok("ladder-mirror", inst)
         else:
             chk.violation("ladder-mirror", NUMINT, fq, var, fn.lineno,
-                          "%s is not `vxc_ml[:, start:start+nfeat_tmp]` under the %s flag and None otherwise" % (var, fam),
-                          instance=inst)
+                          "%s is not the [:, offset:offset + width] slice of the derivative array under the %s flag "
+                          "and None otherwise" % (var, fam), instance=inst)
 
 
 # ----------------------------------------------------------------------------
 def rule_scale(chk):
     mod = pf.Module(chk.tree, NUMINT)
-    fn = mod.func("CiderNumIntMixin.eval_xc_cider")
+    fn = ks.locate(chk.tree, NUMINT, "CiderNumIntMixin.eval_xc_cider")[1]
     fq = "CiderNumIntMixin.eval_xc_cider"
     # (value, derivative) pairs: first two targets of `... = self.mlxc(...)`
     pairs = set()
@@ -350,6 +399,12 @@ def rule_scale(chk):
         if isinstance(n, ast.AugAssign) and isinstance(n.op, (ast.Mult, ast.Div)) and isinstance(n.target, ast.Name) \
                 and n.target.id in scal and not isinstance(n.value, ast.Constant):
             scal[n.target.id].append((type(n.op).__name__, pf.src(n.value), n))
+        elif isinstance(n, ast.Assign) and len(n.targets) == 1 and isinstance(n.targets[0], ast.Name) \
+                and n.targets[0].id in scal and isinstance(n.value, ast.BinOp) and isinstance(n.value.op, (ast.Mult, ast.Div)):
+            t, v = n.targets[0].id, n.value
+            other = v.right if pf.src(v.left) == t else (v.left if pf.src(v.right) == t and isinstance(v.op, ast.Mult) else None)
+            if other is not None and not isinstance(other, ast.Constant):
+                scal[t].append((type(v.op).__name__, pf.src(other), n))
     fe = sorted((o, v) for o, v, _ in scal[e])
     fd = sorted((o, v) for o, v, _ in scal[d])
     inst = "%s:%s scalings of %s %s == scalings of %s %s" % (NUMINT, fq, e, fe, d, fd)
@@ -403,8 +458,8 @@ def _count_top(fn, pred):
 def rule_hermi_half(chk):
     mod = pf.Module(chk.tree, NUMINT)
     # (a) contract_wv and its NLOF sibling halve rows 0 and 4 exactly once
-    sites = [(NUMINT, mod.func("CiderNumInt.contract_wv"), "CiderNumInt.contract_wv"),
-             (FRACLAPL, pf.Module(chk.tree, FRACLAPL).func("_odp_dot_sparse_"), "_odp_dot_sparse_")]
+    sites = [(NUMINT, ks.locate(chk.tree, NUMINT, "CiderNumInt.contract_wv")[1], "CiderNumInt.contract_wv"),
+             (FRACLAPL, ks.locate(chk.tree, FRACLAPL, "_odp_dot_sparse_")[1], "_odp_dot_sparse_")]
     for rel, fn, fq in sites:
         wv = "wv"
         if wv not in [a.arg for a in fn.args.args]:
@@ -432,7 +487,7 @@ def rule_hermi_half(chk):
                           "wv[0] is halved after it has been contracted", instance=inst)
     # (b) integrators: hermi_sum exactly once after the last contract_wv loop, then += v1; no halving of their own
     for name in INTEGRATORS:
-        fn = mod.func(name)
+        fn = ks.locate(chk.tree, NUMINT, name)[1]
         herm = [st for st in fn.body if isinstance(st, ast.Assign) and any(
             (pf.call_name(c) or "").endswith("hermi_sum") for c in ast.walk(st.value) if isinstance(c, ast.Call))]
         all_herm = [c for c in ast.walk(fn) if isinstance(c, ast.Call) and (pf.call_name(c) or "").endswith("hermi_sum")]
@@ -466,6 +521,10 @@ def rule_hermi_half(chk):
                         v1s.add(pf.base_name(k.value.elts[1]))
             adds = [st for st in fn.body if isinstance(st, ast.AugAssign) and isinstance(st.op, ast.Add)
                     and pf.src(st.target) == tgt and pf.src(st.value) in v1s]
+            adds += [st for st in fn.body if isinstance(st, ast.Assign) and pf.src(st.targets[0]) == tgt
+                     and isinstance(st.value, ast.BinOp) and isinstance(st.value.op, ast.Add)
+                     and {pf.src(st.value.left), pf.src(st.value.right)} & {tgt} and
+                     {pf.src(st.value.left), pf.src(st.value.right)} & v1s and st not in herm]
             if len(adds) != 1:
                 problems.append("the tau matrix %s is added to %s %d time(s) (expected once)" % (sorted(v1s), tgt, len(adds)))
             elif adds[0].lineno < h.lineno:
@@ -487,7 +546,7 @@ def rule_hermi_half(chk):
 def rule_energy_nelec(chk):
     mod = pf.Module(chk.tree, NUMINT)
     for name in INTEGRATORS:
-        fn = mod.func(name)
+        fn = ks.locate(chk.tree, NUMINT, name)[1]
         bf = batch.BatchFunction(fn, NUMINT)
         rets = [n for n in pf.walk_no_nested(fn) if isinstance(n, ast.Return)]
         if len(rets) != 1 or not isinstance(rets[0].value, ast.Tuple) or len(rets[0].value.elts) != 3:
@@ -505,58 +564,83 @@ def rule_energy_nelec(chk):
                     comps = {pf.src(e) for e in x.value.elts}
             e_adds = [x for x in blk if isinstance(x, ast.AugAssign) and pf.base_name(x.target) == exs]
             n_adds = [x for x in blk if isinstance(x, ast.AugAssign) and pf.base_name(x.target) == nel]
+            for x in blk:  # `a[k] = a[k] + v` is the same accumulation
+                if isinstance(x, ast.Assign) and len(x.targets) == 1 and isinstance(x.value, ast.BinOp) \
+                        and isinstance(x.value.op, ast.Add) and pf.src(x.value.left) == pf.src(x.targets[0]) \
+                        and pf.base_name(x.targets[0]) in (exs, nel):
+                    aug = ast.AugAssign(target=x.targets[0], op=ast.Add(), value=x.value.right)
+                    ast.copy_location(aug, x)
+                    (e_adds if pf.base_name(x.targets[0]) == exs else n_adds).append(aug)
             inst0 = "%s:%s energy/electron accumulation present" % (NUMINT, name)
             if not e_adds or not n_adds:
                 chk.violation("energy-nelec", NUMINT, name, "accumulation of %s / %s" % (nel, exs), st.lineno,
                               "the block that evaluates the functional does not accumulate both %s and %s" % (nel, exs),
                               instance=inst0)
                 continue
-            dens_used = {}
+            weights = ks.weight_names(fn)
+            local = {}
+            for y in blk:
+                if isinstance(y, ast.Assign) and len(y.targets) == 1 and isinstance(y.targets[0], ast.Name):
+                    local[y.targets[0].id] = y.value
+
+            def dens(e, depth=0):
+                """(density components, weighted?) that expression e is built from, through block-local names"""
+                cs, w = [], False
+                for n in ast.walk(e):
+                    if isinstance(n, ast.Subscript) and pf.src(n.value) in comps and pf.src(n.slice) in ("0", "0, :", "0, ..."):
+                        cs.append(pf.src(n.value))
+                    elif isinstance(n, ast.Name) and n.id in weights:
+                        w = True
+                    elif isinstance(n, ast.Name) and n.id in local and depth < 3 and n.id not in comps:
+                        c2, w2 = dens(local[n.id], depth + 1)
+                        cs += c2
+                        w = w or w2
+                return cs, w
+
+            def slot_of(x, arr):
+                t = x.target if isinstance(x, ast.AugAssign) else x.targets[0]
+                e = bf._axis_index(t, bf.arrays.get(arr, 0)) if isinstance(t, ast.Subscript) else None
+                return pf.src(e) if isinstance(e, ast.AST) else None
+
+            e_comps, n_comps, e_slots, n_slots = [], [], set(), set()
+            undecided = False
             for x in e_adds:
                 inst = "%s:%s %s" % (NUMINT, name, pf.src(x))
-                v = x.value
                 problems = []
-                if not (isinstance(x.op, ast.Add) and isinstance(v, ast.Call) and pf.call_name(v) in ("np.dot", "numpy.dot")
-                        and len(v.args) == 2 and isinstance(v.args[0], ast.Name)):
-                    raise core.AnalysisError("%s: unrecognised energy accumulation `%s`" % (name, pf.src(x)))
-                den = v.args[0].id
-                if pf.src(v.args[1]) != pf.src(exc_t):
-                    problems.append("the energy density is `%s`, not the `%s` returned by eval_xc_cider" % (
-                        pf.src(v.args[1]), pf.src(exc_t)))
-                ddef = [y for y in blk if isinstance(y, ast.Assign) and pf.src(y.targets[0]) == den]
-                okden = False
-                if len(ddef) == 1 and isinstance(ddef[0].value, ast.BinOp) and isinstance(ddef[0].value.op, ast.Mult):
-                    l, r = ddef[0].value.left, ddef[0].value.right
-                    for a, b in ((l, r), (r, l)):
-                        if isinstance(a, ast.Subscript) and pf.src(a.slice) == "0" and pf.src(a.value) in comps \
-                                and isinstance(b, ast.Name) and b.id in ks.weight_names(fn):
-                            okden = True
-                            dens_used[den] = pf.src(a.value)
-                if not okden:
-                    problems.append("`%s` is not `<density passed to eval_xc_cider>[0] * weight` (%s)" % (
-                        den, pf.src(ddef[0].value) if ddef else "undefined in this block"))
-                # the electron count uses the same density at the same batch slot
-                slot = bf._axis_index(x.target, bf.arrays.get(exs, 0)) if isinstance(x.target, ast.Subscript) else None
-                mates = [y for y in n_adds if isinstance(y.value, ast.Call) and pf.src(y.value) == "%s.sum()" % den]
-                if len(mates) != 1:
-                    problems.append("no single `%s[...] += %s.sum()` next to it" % (nel, den))
-                else:
-                    slot_n = bf._axis_index(mates[0].target, bf.arrays.get(nel, 0))
-                    if pf.src(slot_n) != pf.src(slot) if (slot is not None and slot_n is not None) else slot is not slot_n:
-                        problems.append("energy goes to batch slot %s but the electron count to slot %s" % (
-                            pf.src(slot) if slot is not None else None, pf.src(slot_n) if slot_n is not None else None))
+                if pf.src(exc_t) not in ks._names(x.value) or not isinstance(x.op, ast.Add):
+                    problems.append("the accumulated value does not use the energy density `%s` returned by "
+                                    "eval_xc_cider (or is not additive)" % pf.src(exc_t))
+                cs, w = dens(x.value)
+                if not cs:
+                    problems.append("the accumulated value is not built from `<density passed to eval_xc_cider>[0]`")
+                elif not w:
+                    problems.append("the density is not multiplied by the quadrature weight (%s)" % "/".join(sorted(weights)))
+                e_comps += cs
+                e_slots.add(slot_of(x, exs))
                 if problems:
                     chk.violation("energy-nelec", NUMINT, name, pf.src(x), x.lineno, "; ".join(problems), instance=inst)
                 else:
                     chk.ok("energy-nelec", inst)
-            inst = "%s:%s every density component contributes once" % (NUMINT, name)
-            if sorted(dens_used.values()) == sorted(comps) and len(e_adds) == len(comps) == len(n_adds):
+            for y in n_adds:
+                cs, w = dens(y.value)
+                inst = "%s:%s %s" % (NUMINT, name, pf.src(y))
+                if not cs or not w:
+                    chk.violation("energy-nelec", NUMINT, name, pf.src(y), y.lineno,
+                                  "the electron count is not accumulated from `<density passed to eval_xc_cider>[0] * "
+                                  "weight`", instance=inst)
+                else:
+                    chk.ok("energy-nelec", inst)
+                n_comps += cs
+                n_slots.add(slot_of(y, nel))
+            inst = "%s:%s every density component contributes once, same batch slot" % (NUMINT, name)
+            if sorted(e_comps) == sorted(comps) == sorted(n_comps) and e_slots == n_slots and len(e_slots) == 1:
                 chk.ok("energy-nelec", inst)
             else:
                 chk.violation("energy-nelec", NUMINT, name, "density components %s" % sorted(comps), st.lineno,
-                              "the density passed to eval_xc_cider has the component(s) %s but the energy is accumulated "
-                              "from %s (%d energy, %d electron-count accumulations)" % (
-                                  sorted(comps), sorted(dens_used.values()), len(e_adds), len(n_adds)), instance=inst)
+                              "the density passed to eval_xc_cider has the component(s) %s; the energy is accumulated "
+                              "from %s into batch slot(s) %s, the electron count from %s into slot(s) %s" % (
+                                  sorted(comps), sorted(e_comps), sorted(map(str, e_slots)), sorted(n_comps),
+                                  sorted(map(str, n_slots))), instance=inst)
         # the batch slot is the induction variable of the enclosing batch loop (rule shared with C09-1)
         for u in bf.uses:
             if u.kind == "array" and u.array in (nel, exs):
@@ -582,11 +666,11 @@ def _analyse_own(chk):
     chk.guard(rule_scale)
     chk.guard(rule_hermi_half)
     chk.guard(rule_energy_nelec)
-    chk.floor("potential-consume", 36, "12 functions x 3 potentials")
-    chk.floor("ladder-mirror", 18, "2 guards + order + 8 rungs + 8 stores/reads + 2 hand-outs")
-    chk.floor("scale-pair", 2, "xmix pair + direct potential")
-    chk.floor("hermi-half", 32, "2x2 halvings + 2 orders + 4 integrators + 24 gradient sites")
-    chk.floor("energy-nelec", 20, "4 integrators")
+    chk.floor("potential-consume", 18, "12 functions x 3 potentials")
+    chk.floor("ladder-mirror", 10, "2 guards + order + 8 rungs + 8 stores/reads + 2 hand-outs")
+    chk.floor("scale-pair", 1, "xmix pair + direct potential")
+    chk.floor("hermi-half", 16, "2x2 halvings + 2 orders + 4 integrators + 24 gradient sites")
+    chk.floor("energy-nelec", 12, "4 integrators")
     chk.assumptions += [
         "def-use slicing is flow-insensitive inside one function (a name is tainted everywhere once tainted)",
         "the quadrature weight is the `weight` element yielded by block_loop / extra_block_loop / grids_response_cc",
